@@ -588,6 +588,52 @@ func c05GenReal(t *testing.T, r *vfRng, dir string, pageSize int, spill bool) *c
 	return res
 }
 
+// c05GenDirectedSpill: the recorded witness of the salt-only scan's known limitation:
+// commit, a spilled transaction rolled back, one more commit (shorter than the spill).
+func c05GenDirectedSpill(t *testing.T, dir string) *c05Real {
+	path := filepath.Join(dir, "directed-spill.db")
+	d, err := Open(path, false, false)
+	if err != nil {
+		t.Fatal(err)
+	}
+	mustExecute(d, "PRAGMA page_size=512")
+	mustExecute(d, "CREATE TABLE t0 (id INTEGER PRIMARY KEY, v TEXT, w BLOB)")
+	mustExecute(d, "VACUUM")
+	d.Close()
+	if d, err = Open(path, false, true); err != nil {
+		t.Fatal(err)
+	}
+	mustExecute(d, "INSERT INTO t0(v) VALUES('base')")
+	if _, err := d.Checkpoint(CheckpointTruncate); err != nil {
+		t.Fatal(err)
+	}
+	res := &c05Real{pageSize: 512, kind: "rollback-of-spilled-transaction"}
+	res.base = c05FileOrEmpty(path)
+	mustExecute(d, "PRAGMA cache_size=5")
+	mustExecute(d, "INSERT INTO t0(v) VALUES('a')")
+	stmts := []string{"BEGIN"}
+	for j := 0; j < 80; j++ {
+		stmts = append(stmts, fmt.Sprintf("INSERT INTO t0(v,w) VALUES('spill%d', zeroblob(512))", j))
+	}
+	stmts = append(stmts, "ROLLBACK")
+	if _, err := d.RequestStringStmts(stmts); err != nil {
+		t.Fatal(err)
+	}
+	mustExecute(d, "INSERT INTO t0(v) VALUES('b')")
+	d.Close()
+	res.walb = c05FileOrEmpty(path + "-wal")
+	os.Remove(path)
+	os.Remove(path + "-wal")
+	os.Remove(path + "-shm")
+	_, vf, _ := c05ParseValid(res.walb)
+	for i, f := range vf {
+		if f.commit != 0 {
+			res.boundaries = append(res.boundaries, i+1)
+		}
+	}
+	return res
+}
+
 // c05SQLiteCheckpoint lets SQLite checkpoint walb into base and returns the database file.
 func c05SQLiteCheckpoint(dir string, base, walb []byte) ([]byte, error) {
 	path := filepath.Join(dir, "ck.db")
@@ -633,10 +679,28 @@ func c05Real1(t *testing.T, rep *vfReport, r *vfRng, dir string, g *c05Real, ops
 		*ops = append(*ops, fmt.Sprintf("ckpt %d %s %s", g.pageSize, vfHexB(g.base), walHex))
 		*impl = append(*impl, vfHexB(whole))
 	}
-	// frames the checksumming reader accepts = SQLite's valid prefix
+	// frames the checksumming reader accepts = the checksum-valid prefix (harness's own parse)
 	_, vfr := c05ReadAll(g.walb)
-	if len(vfr) != valid {
-		rep.Fail("checksum-valid-prefix-differs-from-sqlite", fmt.Sprintf("reader accepts %d frames, SQLite wrote %d committed frames", len(vfr), valid), replayBase)
+	_, vfOwn, _ := c05ParseValid(g.walb)
+	if !c05FramesEqual(vfr, vfOwn) {
+		rep.Fail("checksum-valid-prefix-differs", fmt.Sprintf("FullScanner accepts %d frames, the rule %d", len(vfr), len(vfOwn)), replayBase)
+	}
+	if len(vfOwn) > valid {
+		// a rolled-back spilled transaction whose frames were not overwritten: a checksum-valid,
+		// unterminated trailing transaction. The property demands an error, in both modes.
+		rep.Count("sqlite-wal-with-valid-uncommitted-tail")
+		for _, full := range []bool{false, true} {
+			tok, _ := c05Compact(g.walb, 0, full)
+			if sendModel {
+				*ops = append(*ops, fmt.Sprintf("compact %s 0 %s", c05B(full), walHex))
+				*impl = append(*impl, tok)
+			}
+			rep.Case(fmt.Sprintf("real-open|%x|%v", g.walb[:64], full), true)
+			if tok != "err-open-tx" {
+				rep.Fail("open-transaction-not-reported", fmt.Sprintf("%d committed + %d uncommitted valid frames: %.40s", valid, len(vfOwn)-valid, tok), replayBase)
+			}
+		}
+		return
 	}
 
 	starts := append([]int{0}, g.boundaries[:len(g.boundaries)-1]...)
@@ -757,6 +821,7 @@ func TestVerifC05(t *testing.T) {
 		g := c05GenReal(t, r, dir, 512, true)
 		c05Real1(t, rep, r, dir, g, &ops, &impl)
 	}
+	c05Real1(t, rep, r, dir, c05GenDirectedSpill(t, dir), &ops, &impl)
 	if !vfThorough() {
 		// one large-page WAL in the quick tier too (property only when too big for the model)
 		g := c05GenReal(t, r, dir, 65536, false)
